@@ -71,7 +71,26 @@ static std::string edge_line(hz::Rng &r, std::string &what) {
   return head + fill + tail;
 }
 
+// file entry points on paths whose size (fstat) and content (read) disagree, on devices and directories: the call comes back
+static void odd_files(hz::Ctx &ctx) {
+  static const char *ODD[] = {"/sys/devices/system/cpu/online", "/proc/self/cmdline", "/dev/null", "/proc/self/status", "/sys/kernel/mm/transparent_hugepage/enabled", "/proc/self/maps", "/", "/proc/self/fd", "/dev/zero", "/proc/self/environ"};
+  for (int k = 0; k < 10; k++) for (int entry = 0; entry < 3; entry++) for (int internal = 0; internal < 2; internal++) {
+    if (!ctx.take()) continue;
+    std::string id = "FO|" + std::to_string(k) + "|" + std::to_string(entry) + "|" + std::to_string(internal); if (!ctx.begin(id, ODD[k])) continue;
+    ctx.cls("part:odd-files"); ctx.nontrivial(id);
+    if (k == 8 && access("/dev/zero", R_OK) != 0) continue;
+    std::vector<uint8_t> b(4096, 0x5a); assemblyline_t a = asm_create_instance(internal ? nullptr : b.data(), 4096); std::vector<char> p(ODD[k], ODD[k] + strlen(ODD[k]) + 1); int cnt = 0;
+    ctx.watchdog_s = 20; alarm(20);
+    int rc = entry == 0 ? asm_assemble_file(a, p.data()) : entry == 1 ? assemble_file(a, p.data()) : asm_assemble_file_counting_chunks(a, p.data(), 16, &cnt);
+    ctx.watchdog_s = 300; alarm(300);
+    asm_destroy_instance(a);
+    if (ctx.want_sample()) ctx.put_sample(std::string(ODD[k]) + " through a file entry point -> returned " + std::to_string(rc));
+    if (rc != 0 && rc != 1) { hz::Failure f; f.caseid = id; f.text = ODD[k]; f.symptom = "bad-return"; f.detail = "returned " + std::to_string(rc); f.tags = {"mn:file", "form:odd", "sym:bad-return"}; ctx.fail(f); }
+  }
+}
+
 void prop_c09_grammar(hz::Ctx &ctx) {
+  odd_files(ctx);
   static Pool P = build_pool(ctx.seed, 1);
   hz::Rng r(ctx.seed * 31 + 9);
   long long total = ctx.thorough() ? 20000000 : 2000000;
@@ -94,6 +113,10 @@ void prop_c09_grammar(hz::Ctx &ctx) {
 }
 
 int replay_fz(const std::string &caseid) {
+  if (caseid.compare(0, 3, "FO|") == 0) { auto f = split(caseid, '|'); if (f.size() != 4) return 2; static const char *ODD[] = {"/sys/devices/system/cpu/online", "/proc/self/cmdline", "/dev/null", "/proc/self/status", "/sys/kernel/mm/transparent_hugepage/enabled", "/proc/self/maps", "/", "/proc/self/fd", "/dev/zero", "/proc/self/environ"};
+    int k = atoi(f[1].c_str()) % 10, entry = atoi(f[2].c_str()), internal = atoi(f[3].c_str()); std::vector<uint8_t> b(4096, 0x5a); assemblyline_t a = asm_create_instance(internal ? nullptr : b.data(), 4096); std::vector<char> p(ODD[k], ODD[k] + strlen(ODD[k]) + 1); int cnt = 0;
+    alarm(20); int rc = entry == 0 ? asm_assemble_file(a, p.data()) : entry == 1 ? assemble_file(a, p.data()) : asm_assemble_file_counting_chunks(a, p.data(), 16, &cnt); alarm(0); asm_destroy_instance(a);
+    printf("%s: returned %d\n", ODD[k], rc); return (rc == 0 || rc == 1) ? 0 : 1; }
   auto f = split(caseid, '|'); if (f.size() < 7 || f[0] != "FZ") return 2;
   FzCase c; c.combo = atoi(f[1].c_str()); c.mode = atoi(f[2].c_str()); c.chunk = atoi(f[3].c_str()); c.internal = f[4] == "1"; c.n = atoi(f[5].c_str()); c.text = fromhex(f[6]); if (f.size() > 7) c.start = atoi(f[7].c_str()); if (f.size() > 8) c.flags = atoi(f[8].c_str());
   std::string why; bool ok = run_fz(c, why); printf("text: %s\n", hz::jesc(c.text).c_str()); if (ok) { printf("OK\n"); return 0; } printf("FAIL %s\n", why.c_str()); return 1;
